@@ -57,6 +57,8 @@ def integrate(fr, axis='t', mode='mean', normalize=False, as_frame=False):
                                 seed=fr.rng,
                                 t_start=fr.t_start,
                                 source_name=fr.source_name)
+            # Keep the frame's own time labels (e.g. the absolute, gapped times of a consolidated cadence)
+            new_fr.ts = np.array(fr.ts, copy=True)
         else:
             # Spectrum
             new_fr = Spectrum(df=fr.df,
